@@ -298,3 +298,134 @@ Proof.
               rewrite f_ivl in Hge. specialize (Hge Hivl ltac:(lia)). rewrite f_ivl. lia.
            ++ exists p. split; [congruence|exact Hlt].
 Qed.
+
+Lemma term_one_lev epoch lc snap caller st total id st' s :
+  0 <= epoch -> term_inv epoch snap st total ->
+  term_one snap caller epoch st id = Ok st' s ->
+  lev epoch lc (proposals st) (states st) (pending st) (proposals st') (states st') (pending st') /\
+  deal_ops st' = deal_ops st /\ last_cron st' = last_cron st /\ next_id st' = next_id st /\
+  interval st' = interval st.
+Proof.
+  intros He [I Hc]. unfold term_one.
+  destruct (proposals snap !! id) as [p|] eqn:Hps.
+  2:{ intros [= <- <-]. split; [apply lev_nop; auto|auto]. }
+  destruct (negb (p_provider p =? caller)); [discriminate|].
+  destruct (p_end p <=? epoch) eqn:Ed.
+  { intros [= <- <-]. split; [apply lev_nop; auto|auto]. }
+  zb.
+  destruct (states snap !! id) as [ds|] eqn:Hss; [|discriminate].
+  set (st1 := if ds_lu ds =? UNDEF then remove_pending st p else st).
+  assert (Hst1 : states st1 = states st /\ proposals st1 = proposals st /\
+                 deal_ops st1 = deal_ops st /\ last_cron st1 = last_cron st /\
+                 next_id st1 = next_id st /\ interval st1 = interval st /\
+                 (pending st1 = pending st \/ pending st1 = pend_del (pending st) p))
+    by (unfold st1; destruct (ds_lu ds =? UNDEF); repeat split; auto).
+  destruct Hst1 as (Hs1 & Hp1 & Ho1 & Hc1 & Hn1 & Hi1 & Hpe1).
+  assert (I1 : InvS epoch total (states st) st1).
+  { unfold st1. destruct (ds_lu ds =? UNDEF); exact I. }
+  destruct (Hc id) as [Hnone|[HP HSt]].
+  - pose proof (inv_S_None I id Hnone) as Hsn.
+    destruct (process_slashed_deal st1 p _) as [st2 r|] eqn:H2; [|discriminate]. cbn [bind].
+    apply psd_frame in H2 as [].
+    destruct (rcd_err st2 id) as [c Hc']; [congruence|]. rewrite Hc'. discriminate.
+  - rewrite Hps in HP. rewrite Hss in HSt.
+    destruct (slashed_spec epoch total (states st) st1 id p ds epoch I1) as (st2 & R & F & Pn);
+      [congruence|exact HSt|lia|lia|].
+    rewrite R. cbn [bind].
+    pose proof F as [_ _ _ _ _ _ Ffr]. destruct Ffr.
+    rewrite (rcd_ok st2 id ds p) by congruence. cbn [bind].
+    intros [= <- <-].
+    cbn [states set_proposals set_states proposals pending deal_ops last_cron next_id interval].
+    split; [|repeat split; congruence].
+    apply (lev_gone epoch lc _ (states st) _ _ _ _ id p); [exact HP|now rewrite f_prop, Hp1| |].
+    + intros k Hk. rewrite f_states, Hs1. now rewrite lookup_delete_ne by congruence.
+    + rewrite Pn. exact Hpe1.
+Qed.
+
+(* ------------------------------------------------------------------------------------------ *)
+(* the loops *)
+Definition LifeL (lc : Z) (st : state) (S : gmap Z dstate) : Prop :=
+  LifeC (proposals st) S (pending st) (deal_ops st) lc (next_id st) (interval st).
+
+Lemma lifel_lev epoch lc st S st' S' :
+  LifeL lc st S ->
+  lev epoch lc (proposals st) S (pending st) (proposals st') S' (pending st') ->
+  deal_ops st' = deal_ops st /\ last_cron st' = last_cron st /\ next_id st' = next_id st /\
+  interval st' = interval st ->
+  LifeL lc st' S'.
+Proof.
+  intros Hl Hev (H1 & H2 & H3 & H4). unfold LifeL in *. rewrite H1, H3, H4.
+  eapply lifec_lev; eauto.
+Qed.
+
+Lemma settle_loop_life epoch lc ids : forall st a i st' a',
+  0 <= epoch -> NoDup ids ->
+  settle_inv epoch st a -> (forall k, In k ids -> ~ In k (map fst (sa_new a))) ->
+  LifeL lc st (put_deal_states (states st) (sa_new a)) ->
+  settle_loop epoch st a i ids = Ok st' a' ->
+  LifeL lc st' (put_deal_states (states st') (sa_new a')) /\ last_cron st' = last_cron st.
+Proof.
+  induction ids as [|id ids IH]; intros st a i st' a' He Hnd I Hnew Hl; cbn [settle_loop].
+  - intros [= <- <-]. auto.
+  - destruct (settle_one epoch st a i id) as [st1 a1|] eqn:H1; [|discriminate]. cbn [bind].
+    inversion Hnd; subst.
+    destruct (settle_one_inv _ _ _ _ _ _ _ He I (Hnew id (or_introl eq_refl)) H1) as [I1 Hk].
+    destruct (settle_one_lev epoch lc _ _ _ _ _ _ He I (Hnew id (or_introl eq_refl)) H1) as (Hev & Hfr).
+    intros Hrest.
+    destruct (IH st1 a1 (i + 1) st' a' He ltac:(assumption) I1) as [Hl' Hc']; auto.
+    + intros k Hin Hk1. destruct (Hk k Hk1) as [Hk2| ->]; [|contradiction].
+      apply (Hnew k); [now right|exact Hk2].
+    + eapply lifel_lev; eauto.
+    + split; [exact Hl'|]. destruct Hfr as (_ & Hc & _). congruence.
+Qed.
+
+Lemma term_loop_life epoch lc snap caller ids : forall st total st' total',
+  0 <= epoch -> term_inv epoch snap st total -> LifeL lc st (states st) ->
+  term_loop snap caller epoch st total ids = Ok st' total' ->
+  LifeL lc st' (states st') /\ last_cron st' = last_cron st.
+Proof.
+  induction ids as [|id ids IH]; intros st total st' total' He I Hl; cbn [term_loop].
+  - intros [= <- <-]. auto.
+  - destruct (term_one snap caller epoch st id) as [st1 s|] eqn:H1; [|discriminate]. cbn [bind].
+    pose proof (term_one_inv _ _ _ _ _ _ _ _ He I H1) as I1.
+    destruct (term_one_lev epoch lc _ _ _ _ _ _ _ He I H1) as (Hev & Hfr).
+    intros Hrest.
+    destruct (IH st1 _ st' total' He I1 ltac:(eapply lifel_lev; eauto) Hrest) as [Hl' Hc'].
+    split; [exact Hl'|]. destruct Hfr as (_ & Hc & _). congruence.
+Qed.
+
+(* cron: every id visited is due, hence scheduled at an epoch <= now and (invariant) >= its start *)
+Definition cron_side (epoch : Z) (st : state) (a : cracc) : Prop :=
+  forall x, In x (cr_new a) -> epoch < fst x /\ snd x < next_id st /\
+            forall p, proposals st !! snd x = Some p -> p_start p < epoch.
+
+Lemma cron_loop_life epoch ids : forall st a st' a',
+  0 <= epoch -> cron_inv epoch st a -> LifeL epoch st (states st) -> cron_side epoch st a ->
+  (forall id p, In id ids -> proposals st !! id = Some p -> p_start p <= epoch) ->
+  cron_loop epoch st a ids = Ok st' a' ->
+  LifeL epoch st' (states st') /\ cron_side epoch st' a' /\
+  deal_ops st' = deal_ops st /\ last_cron st' = last_cron st /\ next_id st' = next_id st.
+Proof.
+  induction ids as [|id ids IH]; intros st a st' a' He I Hl Hside Hdue; cbn [cron_loop].
+  - intros [= <- <-]. auto.
+  - destruct (cron_one epoch st a id) as [st1 a1|] eqn:H1; [|discriminate]. cbn [bind].
+    pose proof (cron_one_inv _ _ _ _ _ _ He I H1) as I1.
+    destruct (cron_one_lev epoch _ _ _ _ _ He I
+                (fun p ds Hp Hs Hlu => lf_upd _ _ _ _ _ _ _ Hl id p ds Hp Hs Hlu)
+                (fun p Hp => Hdue id p (or_introl eq_refl) Hp)
+                (lf_ivl _ _ _ _ _ _ _ Hl) H1) as (Hev & Ho & Hc & Hn & Hi & Hnew).
+    assert (Hl1 : LifeL epoch st1 (states st1)) by (eapply lifel_lev; eauto).
+    assert (Hsub : forall k q, proposals st1 !! k = Some q -> proposals st !! k = Some q).
+    { intros k q Hk. destruct Hev as [HP _ _|? ? ? _ _ _ _ HP _ _|? ? _ HP _ _|? ? ? ? _ _ _ _ HP _ _];
+        rewrite HP in Hk; auto. apply lookup_delete_Some in Hk as [_ Hk]. exact Hk. }
+    intros Hrest.
+    destruct (IH st1 a1 st' a' He I1 Hl1) as (A1 & A2 & A3 & A4 & A5); auto.
+    + intros x Hx. destruct (Hnew x Hx) as [Hold|(Hid & Hlt & p & Hp & Hps)].
+      * destruct (Hside x Hold) as (B1 & B2 & B3). split; [exact B1|]. split; [lia|].
+        intros q Hq. apply B3. now apply Hsub.
+      * split; [exact Hlt|]. rewrite Hid. split.
+        -- destruct (i_wfP _ _ _ _ _ _ _ _ _ _ _ _ I1 id p Hp) as [_ ?]. lia.
+        -- intros q Hq. assert (q = p) as -> by congruence. exact Hps.
+    + intros k q Hin Hk. apply (Hdue k q); [now right|now apply Hsub].
+    + repeat split; auto; congruence.
+Qed.
